@@ -83,6 +83,21 @@ def trees(tier):
                 if tier == "quick" and (f1[3], f2[3], f3[3]).count("revert") == 0 and f1[0] == f2[0] == f3[0]:
                     continue
                 yield mk("TX", "S", "0", "return", [mk(f1[0], f1[1], f1[2], f1[3], [mk(f2[0], f2[1], f2[2], f2[3], [mk(*f3)])])])
+    # callee outcomes that branch on the symbolic input (two failing paths / one failing and one succeeding path), with the caller
+    # writing storage *after* it has looked at it: paths that resume in the caller after a failed callee must not share state
+    sym_kinds = [("CALL", "x"), ("CALL", "0"), ("STATICCALL", "0"), ("DELEGATECALL", "0"), ("CALLCODE", "x")]
+    for (kind, v), oc, eff in itertools.product(sym_kinds, ("symfail", "symmix"), ("", "STL")):
+        for post in ("S", "ST"):
+            yield mk("TX", "S", "0", "return", [mk(kind, eff, v, oc)], post=post)
+            yield mk("TX", "ST", "0", "return", [mk(kind, eff, v, oc), mk("CALL", "STL", "0", "return")], post=post)
+            yield mk("TX", "S", "0", "return", [mk("CALL", "S", "0", "return", [mk(kind, eff, "fwd" if v == "x" else v, oc)], post=post)])
+            yield mk("TX", "S", "0", "return", [mk("DELEGATECALL", "S", "0", "return", [mk(kind, eff, "0", oc)], post=post)], post="T")
+    # value-bearing calls of a frame to its own address
+    for v, post in itertools.product(("x", "k1", "0"), ("", "S")):
+        yield mk("TX", "S", "0", "return", [mk("SELFCALL", "", v, "stop")], post=post)
+        yield mk("TX", "S", "0", "return", [mk("SELFCALL", "", v, "stop"), mk("CALL", "STL", "x", "return")], post=post)
+        yield mk("TX", "S", "0", "return", [mk("CALL", "S", "x", "return", [mk("SELFCALL", "", "fwd" if v == "x" else v, "stop")], post=post)])
+        yield mk("TX", "S", "0", "return", [mk("CALL", "S", "x", "revert", [mk("SELFCALL", "", "fwd" if v == "x" else v, "stop")], post=post)])
     if tier == "thorough":
         # depth 4 chains over call kinds only (return/revert at the leaf)
         ks = [("CALL", "STL", "fwd"), ("STATICCALL", "STL", "0"), ("DELEGATECALL", "STL", "0"), ("CALLCODE", "STL", "fwd"), ("CREATE", "STL", "fwd")]
@@ -167,7 +182,7 @@ def count_nodes(t):
 
 
 def strip(t):
-    return {"kind": t["kind"], "effects": t["effects"], "value": t["value"], "outcome": t["outcome"], "children": [strip(c) for c in t["children"]]}
+    return {"kind": t["kind"], "effects": t["effects"], "value": t["value"], "outcome": t["outcome"], "post": t.get("post", ""), "children": [strip(c) for c in t["children"]]}
 
 
 NSHARDS = 64
